@@ -40,6 +40,9 @@ def gen_system(rng, k, falsy=False):
     X = dict(dims=L, values=[rng.randint(0, 5) for _ in range(n)])
     nproc = rng.randint(1, 5)
     procs = ["sysenv"] + [f"p{i}" for i in range(1, nproc + 1)]
+    if nproc >= 2 and rng.random() < 0.35:
+        # one process name contained in another ("use" / "reuse"): an exception list names processes and flows exactly
+        procs[2] = procs[1] + " (re)" if k % 2 else "re-" + procs[1]
     lonely = rng.random() < 0.2
     if lonely:
         procs.append("unused process")
@@ -159,8 +162,12 @@ def generate(tier, rng):
                 s = sysd["stocks"][int(r * len(sysd["stocks"]))]
                 s["inflow"][int(r * 977) % len(s["inflow"])] = "nan"
             exc = [sysd["flows"][0]["name"]] if (k + vi) % 4 == 0 and sysd["flows"] else []
-            if (k + vi) % 7 == 0 and len(sysd["procs"]) > 1:
+            nested = len(sysd["procs"]) > 2 and sysd["procs"][1] in sysd["procs"][2]
+            if ((k + vi) % 7 == 0 or nested) and len(sysd["procs"]) > 1:
                 exc.append(sysd["procs"][1])
+            if (k + vi) % 5 == 0 and sysd["flows"]:
+                # an entry that is only PART of a flow's name excepts nothing
+                exc.append(sysd["flows"][-1]["name"][:-2])
             # the same system in a very small or very large unit (every value and the tolerance times a power of two): the
             # verdicts do not depend on the unit, the default tolerance scales with the largest magnitude
             scale = [1, 1, Fraction(1, 2 ** 40), 2 ** 40][k % 4]
